@@ -159,8 +159,29 @@ class Segment(CoreSummaries, Contract):
 
     def segment_clauses(self):
         rp = {'held': self.held_text, 'inflight_pre': self.inflight_pre, 'inflight_post': self.inflight_post}
-        return [Clause('C05.balance', ['C05', 'C04'], fn=self.balance_clause(), when='normal', kind='balance', replay=rp,
-                       note='own ref-count effect of the segment == change of (buffered holds + holds of the suspended frame)')]
+        cl = [Clause('C05.balance', ['C05', 'C04'], fn=self.balance_clause(), when='normal', kind='balance', replay=rp,
+                     note='own ref-count effect of the segment == change of (buffered holds + holds of the suspended frame)')]
+        if self.data_fields and self.reentrancy_generic:
+            cl.append(Clause('C01.state_is_final_before_every_emission', ['C01', 'C02', 'C05', 'C08'], fn=self.generic_reentrancy(),
+                             when='normal', kind='reentrancy',
+                             note='re-entrancy: downstream code may call back into this node (feedback edge) during _emit; the '
+                                  "node's buffers must already be in their post-state, otherwise the re-entrant arrival is lost or duplicated"))
+        return cl
+
+    reentrancy_generic = True
+
+    def generic_reentrancy(self):
+        def fn(self_, I, o, fr):
+            snaps = o.state.ghost.get('_snaps', [])
+            post = o.state.heap[self.pre_args['self'].loc]
+            fs = []
+            for s in snaps:
+                cell = s.heap[self.pre_args['self'].loc]
+                for f in self.data_fields:
+                    if f in cell.fields and f in post.fields:
+                        fs.append(values_equal_across(I, s, cell.fields[f], o.state, post.fields[f]))
+            return z3.And(fs) if fs else None
+        return fn
 
     def cover(self, outcomes):
         return [('segment reaches a yield or return', any(o.kind in ('yield', 'return') for o in outcomes))]
